@@ -54,6 +54,12 @@ def real_runseq(mn, mx, mult, sleep, b0, outs):
                 raise ValueError("scripted")
             elif o == "X":
                 raise KeyboardInterrupt("scripted base exception")
+            elif o == "F":
+                # reports "nothing happened" and then fails inside the same call
+                self.nothing_happened()
+                if self.i % 2:
+                    self.backoff()
+                raise ValueError("scripted failure after a no-op")
 
         def interruptable_sleep(self, secs):
             self.sleeps.append(secs)
@@ -71,7 +77,7 @@ def corr_runseq(rng, n):
     for _ in range(n):
         mn, mx, mult, sleep = rng.choice(pool), rng.choice(pool), rng.choice(pool), rng.choice(pool[:4])
         b0 = rng.choice([Fraction(0), Fraction(0), mn, mx])
-        outs = [rng.choice("SSNBEX") for _ in range(rng.randint(1, 12))]
+        outs = [rng.choice("SSNBEXF") for _ in range(rng.randint(1, 12))]
         cases.append((mn, mx, mult, sleep, b0, outs))
         lines.append(" ".join([frac(mn), frac(mx), frac(mult), frac(sleep), frac(b0)] + outs))
     model = run_driver("runseq", lines)
@@ -416,7 +422,7 @@ def oracle(rng, tier):
     for _ in range(300):
         mn = rng.choice([0.01, 0.5, 1.0]); mx = rng.choice([1.0, 4.0, 100.0]); mult = rng.choice([1.0, 1.5, 2.0, 3.0])
         k = rng.randint(1, 8)
-        outs = [rng.choice("BEX") for _ in range(k)] + ["S", "N", rng.choice("BEX"), "N"]
+        outs = [rng.choice("BEXF") for _ in range(k)] + ["S", "N", rng.choice("BEXF"), "N"]
         pre = "".join(rng.choice("SN") for _ in range(rng.randint(0, 3)))
         seq = list(pre) + outs + ["S"]
         bf, sleeps = real_runseq(mn, mx, mult, 0.001, 0, seq)
